@@ -179,7 +179,21 @@ func c09Run(c *core.Ctx) {
 			changed := 0
 			for i := range words {
 				v := append([]uint32{}, words...)
-				v[i] ^= 1
+				// replace word i by a word that selects a different outcome
+				// of the same draw (whatever the sampling algorithm is)
+				d := bt.Log[i]
+				if !d.Announced || d.Bound < 2 {
+					continue
+				}
+				res, _, ok := drawOnce(d.Bound, d.Word, d.Word)
+				if !ok {
+					continue
+				}
+				alt, ok := cal.Rep(d.Bound, (res+1)%d.Bound)
+				if !ok {
+					continue
+				}
+				v[i] = alt
 				o, _ := runScript(g, v)
 				c.Count("executions", 1)
 				if !sameOut(o, base) {
@@ -200,7 +214,7 @@ func init() {
 	Register(&core.Check{
 		ID:    "C09",
 		Level: "fault_enumeration",
-		Rule: "8 recipes (character with/without retries, default recipe, wordlist with preset/functional/retrying separators) x 4 scripted source streams (one with words of the rejection zone); for EVERY read position k of the fault-free run: an error ({custom, io.EOF}) after 0,1,2,3 delivered bytes, and read k served in each of the 7 other compositions of 4 bytes with and without a leading (0,nil) read; plus all reads chunked alike, a replay of the same bytes, and single-word flips; " +
+		Rule: "8 recipes (character with/without retries, default recipe, wordlist with preset/functional/retrying separators) x 4 scripted source streams (one with words of the rejection zone); for EVERY read position k of the fault-free run: an error ({custom, io.EOF}) after 0,1,2,3 delivered bytes, and read k served in each of the 7 other compositions of 4 bytes with and without a leading (0,nil) read; plus all reads chunked alike, a replay of the same bytes, and single-draw outcome changes; " +
 			"non-trivial = faults actually injected (distinct (recipe, stream, read, fault) tuples)",
 		Assume:      []string{"go1.23.5: crypto/rand.Read returns the reader's error (later Go versions abort the process instead)", "the only fallible dependency of generation is crypto/rand.Reader"},
 		Run:         c09Run,
